@@ -2,6 +2,7 @@
 package main
 
 import (
+	"bytes"
 	"fmt"
 	"strconv"
 	"strings"
@@ -406,6 +407,26 @@ func subMalformed() mon.Sub {
 						c.Fail("malformed/parse-accepted/"+b.name, fmt.Sprintf("Parameters.Parse accepts malformed %q", optionText(o)), nil)
 						return
 					}
+					// the same offer through the real header path, alone and with neighbours in the same / another
+					// header line, before and after it: the handshake must fail and no 101 may be written
+					if ci%21 == 0 {
+						bad := optionText(o)
+						for li, lines := range [][]string{{bad}, {bad + ", x-foo"}, {bad + ", permessage-deflate"}, {"x-foo; a=1, " + bad}, {"x-foo", bad + ", x-bar"}, {bad, "permessage-deflate"}, {"permessage-deflate; client_no_context_takeover; client_no_context_takeover=1", bad}} {
+							c.Count(1)
+							req := "GET / HTTP/1.1\r\nHost: x\r\nUpgrade: websocket\r\nConnection: Upgrade\r\nSec-WebSocket-Version: 13\r\nSec-WebSocket-Key: dGhlIHNhbXBsZSBub25jZQ==\r\n"
+							for _, l := range lines {
+								req += "Sec-WebSocket-Extensions: " + l + "\r\n"
+							}
+							he := &wsflate.Extension{Parameters: cfgOf(ci)}
+							rec := xport.NewRec()
+							_, uerr := ws.Upgrader{Negotiate: he.Negotiate}.Upgrade(xport.RW{Reader: strings.NewReader(req + "\r\n"), Writer: rec})
+							if uerr == nil || bytes.HasPrefix(rec.Bytes(), []byte("HTTP/1.1 101")) {
+								c.Fail("malformed/header-path-accepted/"+b.name, fmt.Sprintf("an upgrade whose Sec-WebSocket-Extensions lines %q contain a malformed permessage-deflate offer succeeded (err=%v)", lines, uerr),
+									map[string]interface{}{"lines": lines, "shape": li, "config": fmt.Sprintf("%+v", cfgOf(ci)), "response": string(rec.Bytes())})
+								return
+							}
+						}
+					}
 				}
 			}
 			c.Classf("%s", b.name)
@@ -501,7 +522,7 @@ func main() {
 	mon.Main(&mon.Spec{
 		Property: "C14",
 		Level:    "exploration",
-		Rule: "exhaustive: the full grid of 324 server configurations (2x2x9x9) x 360 single offers (2x2x9x10) = 116640 negotiations by fresh negotiators, each accepted answer parsed and checked against RFC 7692 §7.1 legality (ref.PMCEIllegal); all malformed parameter lists (unknown names, each parameter duplicated same/value-then-bare/bare-then-value/different, values {7,16,0,255,abc,'1 5',-8,8.0,10^20-1, valid+k*2^64/2^32/2^16/2^8, +8, 0xA, 1e1, '10.', 1_0, non-ASCII digits}, value on a flag, no value on server_max_window_bits) alone and embedded among valid parameters x 47 configurations must yield an error from Negotiate and Parse; Parse/Option inverse for all 360 parameter sets through the wire text. " +
+		Rule: "exhaustive: the full grid of 324 server configurations (2x2x9x9) x 360 single offers (2x2x9x10) = 116640 negotiations by fresh negotiators, each accepted answer parsed and checked against RFC 7692 §7.1 legality (ref.PMCEIllegal); all malformed parameter lists (unknown names, each parameter duplicated same/value-then-bare/bare-then-value/different, values {7,16,0,255,abc,'1 5',-8,8.0,10^20-1, valid+k*2^64/2^32/2^16/2^8, +8, 0xA, 1e1, '10.', 1_0, non-ASCII digits}, value on a flag, no value on server_max_window_bits) alone and embedded among valid parameters x 47 configurations must yield an error from Negotiate and Parse, and through the real ws.Upgrader header path (alone, followed / preceded by other extensions in the same or another header line) must fail the handshake without a 101; Parse/Option inverse for all 360 parameter sets through the wire text. " +
 			"sampled: lists of up to 3 offers (+ non-deflate extensions in between) negotiated by one negotiator directly and through the real ws.Upgrader header path (single header and repeated headers): at most one accepted, it is the first one a fresh negotiator accepts alone, its answer is legal, Accepted() reports it; negotiators after 1-4 negotiations (accept/decline/parse error/foreign extension) + Reset vs new ones. distinct = (config, offer class) etc.",
 		Assumptions: []string{"ref.PMCEIllegal transcribes RFC 7692 §7.1.1-7.1.2 / the clauses of the statement", "declining an acceptable offer is not a violation", "leading zeros in window values are left open"},
 		Subs:        []mon.Sub{subGrid(), subLists(), subMalformed(), subInverse(), subReset()},
